@@ -44,7 +44,9 @@ def registry(tier):
         ("Pendulum/RescaleObservation(0,1)/ClipObservation", lambda: ClipObservation(RescaleObservation(Pendulum(), jnp.array(0.0), jnp.array(1.0)))),
     ]
     from lerax.env import mujoco as M
-    small = [("InvertedPendulum/TimeLimit(4)", lambda: TimeLimit(M.InvertedPendulum(), 4))]
+    small = [("InvertedPendulum/TimeLimit(4)", lambda: TimeLimit(M.InvertedPendulum(), 4)),
+             # an action wrapper over an environment whose reward has an action cost and does not clip the action itself
+             ("Swimmer/ClipAction/TimeLimit(4)", lambda: TimeLimit(ClipAction(M.Swimmer()), 4))]
     rest = [
         ("InvertedDoublePendulum", lambda: TimeLimit(M.InvertedDoublePendulum(), 4)),
         ("Hopper", lambda: TimeLimit(M.Hopper(), 4)), ("Hopper(no-exclude)", lambda: TimeLimit(M.Hopper(exclude_current_positions_from_observation=False), 4)),
@@ -94,11 +96,16 @@ def corner_action(space, rng, i):
     if isinstance(space, Discrete):
         return jnp.asarray(int(rng.integers(0, space.n)))
     lo = np.asarray(space.low); hi = np.asarray(space.high)
-    lo = np.where(np.isfinite(lo), lo, -3.0); hi = np.where(np.isfinite(hi), hi, 3.0)
     if i % 3 == 0:
-        a = np.where(rng.random(lo.shape) < 0.5, lo, hi)  # bound corners
+        # corners of the DECLARED space: an unbounded component has the members -inf / +inf (ClipAction advertises Box(-inf, inf))
+        a = np.where(rng.random(lo.shape) < 0.5, lo, hi)
+    elif i % 3 == 1 and not (np.all(np.isfinite(lo)) and np.all(np.isfinite(hi))):
+        # huge finite members of an unbounded space (their square overflows float32)
+        flo = np.where(np.isfinite(lo), lo, -1e20); fhi = np.where(np.isfinite(hi), hi, 1e20)
+        a = np.where(rng.random(lo.shape) < 0.5, flo, fhi)
     else:
-        a = lo + (hi - lo) * rng.random(lo.shape)
+        flo = np.where(np.isfinite(lo), lo, -3.0); fhi = np.where(np.isfinite(hi), hi, 3.0)
+        a = flo + (fhi - flo) * rng.random(lo.shape)
     return jnp.asarray(a, dtype=jnp.float32)
 
 
